@@ -84,7 +84,20 @@ def programs():
   def e_final(shared, st):
     return {'h': st['h'], 's': st['s'] + shared['w'][0]}
 
-  return {'E': (e_init, e_step, e_final, False), 'A': (a_init, a_step, a_final, True), 'B': (b_init, b_step, None, False), 'C': (c_init, c_step, c_final, False),
+  # PF / PG: per-step results that carry NO array (None / an empty dict): still one entry per real batch
+  def f_init(shared, ci):
+    return {'n': jnp.zeros((), jnp.int32), 'v': shared['w'] * ci['scale']}
+
+  def f_step(st, b):
+    return {'n': st['n'] + 1, 'v': st['v'] + jnp.sum(jnp.where(b['__mask__'], b['x'], 0.0))}, None
+
+  def g_step(st, b):
+    return {'n': st['n'] + 2, 'v': st['v'] * 0.5 + jnp.max(b['x'])}, {}
+
+  def f_final(shared, st):
+    return {'n': st['n'], 'v': st['v'] - shared['w']}
+
+  return {'F': (f_init, f_step, f_final, True), 'G': (f_init, g_step, f_final, True), 'E': (e_init, e_step, e_final, False), 'A': (a_init, a_step, a_final, True), 'B': (b_init, b_step, None, False), 'C': (c_init, c_step, c_final, False),
           'D': (d_init, d_step, d_final, False)}
 
 
@@ -597,6 +610,9 @@ def plan(ctx):
   for prog in ('A', 'C', 'D'):
     fc.append({'prog': prog, 'profile': [2, 0, 1, 2, 1, 0, 2, 2, 1, 0, 1, 2, 0, 0, 2, 1, 1], 'backends': backends, 'seed': ctx.seed,
                'iter': True})
+  for profile in ([2], [1, 0, 2], [0], [2, 1, 2, 0, 1, 2, 1], []):
+    for prog in ('F', 'G'):
+      fc.append({'prog': prog, 'profile': profile, 'backends': backends, 'seed': ctx.seed, 'iter': len(profile) == 3})
   for profile in ([1, 0, 2, 1], [2, 1, 2, 0, 1, 2, 1]):
     for prog in ('A', 'C'):
       fc.append({'prog': prog, 'profile': profile, 'backends': backends, 'seed': ctx.seed, 'iter': False, 'dup_ids': True})
@@ -635,6 +651,19 @@ def plan(ctx):
   for a in [decoify(x) for x in p2 if any(it[0] == 'with' for it in x)][::(1 if th else 3)]:
     for b in ([['deco', 'A', [], False]], [['deco', 'B', [['get']], False]], [['set', 'A'], ['deco', 'B', [], True]]):
       dc.append({'progs': [a, b], 'mode': 'op', 'bound': 3 if th else 2})
+  # contexts entered with the backend that is ALREADY the thread's choice (None in a thread that never chose, the same marker
+  # object again) whose body changes the selection: leaving restores what was in effect on entry
+  same = []
+  for inner in ([['set', 'A']], [['set', 'B'], ['get']], [['set', None]], [['with', 'B', [['set', 'A']], False]], [['set', 'A'], ['set', None]]):
+    for raises in (False, True):
+      same.append([['with', None, inner, raises], ['get']])
+      same.append([['set', 'A'], ['with', 'A', inner, raises], ['get']])
+      same.append([['with', 'A', [['with', 'A', inner, raises], ['get']], False]])
+      same.append([['deco', None, inner, raises]])
+  for a in same:
+    dc.append({'progs': [a], 'mode': 'op', 'bound': -1})
+  for a in same[::3]:
+    dc.append({'progs': [a, [['with', 'B', [['get']], False]]], 'mode': 'op', 'bound': 2})
   tc += dc
   ctx.pmap('threads', tc, chunk=max(4, len(tc) // 160))
   line = [
